@@ -196,3 +196,151 @@ Example ex_square :
 Proof. vm_compute. reflexivity. Qed.
 Example ex_square_closed : closed [(0,0); (2,0); (2,2); (0,2); (0,0)]%Z.
 Proof. vm_compute. reflexivity. Qed.
+
+(* ================================================================== *)
+(* ---- float part: the bit-exact binary64 model (Model/FloatMeasures.v), which the
+        correspondence check compares with the implementation bit for bit, related to
+        the exact model above.  Proofs in Proofs/FloatMeasuresProofs.v. ---- *)
+From SP Require Import Model.FloatMeasures Proofs.FloatMeasuresProofs.
+
+(* The float length is the left-to-right float sum, starting from +0.0, of
+   sqrt(dx*dx + dy*dy) over the list [fseg_terms vals offs]; every segment in it has both
+   ends finite; and under any abstraction [ab] of the floats that sends exactly
+   NaN / +inf / -inf to None, that list is -- segment for segment, in the same order --
+   the term list of the exact model (C14_length_terms: the segments between consecutive
+   vertices with both ends finite, ring by ring). *)
+Theorem f_length_structure : forall ab : PrimFloat.float -> num,
+  (forall f, ab f = None <-> f_isfinite f = false) ->
+  forall vals offs,
+    f_compute_line_length vals offs = fsum_from PrimFloat.zero (fseg_terms vals offs) /\
+    Forall (fun s => fseg_finite s = true) (fseg_terms vals offs) /\
+    map (zsq ab) (fseg_terms vals offs) = fst (compute_line_length (map ab vals) offs).
+Proof. exact FloatMeasuresProofs.f_length_structure. Qed.
+Print Assumptions f_length_structure.
+
+Theorem f_length_structure_rings : forall ab : PrimFloat.float -> num,
+  (forall f, ab f = None <-> f_isfinite f = false) ->
+  forall vals offs,
+    mono offs = true -> all_even offs = true -> last offs 0 <= length vals ->
+    map (zsq ab) (fseg_terms vals offs) =
+    concat (map (fun r => seg_terms (pairs r)) (segs (map ab vals) offs)).
+Proof. exact FloatMeasuresProofs.f_length_structure_rings. Qed.
+Print Assumptions f_length_structure_rings.
+
+(* array level, all three nesting depths, any well-formed buffer layout: row i is NaN
+   when element i is missing, the float kernel on the element's ring offsets otherwise *)
+Theorem f_array_rows : forall k a fv,
+  length (la_offs a) = kind_depth k -> f_wf a fv = true ->
+  f_arr_length k a fv =
+    map (fun i => if isna_at (la_valid a) (la_off a) i then PrimFloat.nan
+                  else f_elem_length k a fv i) (seq 0 (la_len a)) /\
+  f_arr_area k a fv =
+    map (fun i => if isna_at (la_valid a) (la_off a) i then PrimFloat.nan
+                  else f_elem_area k a fv i) (seq 0 (la_len a)).
+Proof. exact FloatMeasuresProofs.f_array_rows. Qed.
+Print Assumptions f_array_rows.
+
+Theorem f_missing_nan : forall k a fv i,
+  length (la_offs a) = kind_depth k -> f_wf a fv = true ->
+  i < la_len a -> isna_at (la_valid a) (la_off a) i = true ->
+  length (f_arr_length k a fv) = la_len a /\ length (f_arr_area k a fv) = la_len a /\
+  nth i (f_arr_length k a fv) PrimFloat.zero = PrimFloat.nan /\
+  nth i (f_arr_area k a fv) PrimFloat.zero = PrimFloat.nan.
+Proof. exact FloatMeasuresProofs.f_missing_nan. Qed.
+Print Assumptions f_missing_nan.
+
+(* ---- float area on integer-valued coordinates is exact ----
+   [frep f z]: the binary64 number f is finite and its real value ([fvalue], through
+   Flocq's IEEE 754 formalisation of the primitive floats) is the integer z.
+   [area_nterms offs]: the number of terms x*(y'-y) the loops add for ring offsets
+   [offs] (m - 1 for a ring of m >= 3 vertices; at most the number of vertices).
+   Coordinates are floats holding the integers zs, |z| <= B.  Every difference is at
+   most 2B, every product at most 2B^2 and every partial sum at most T*2B^2 in
+   magnitude, so with T*2*B^2 <= 2^53 no operation rounds: the float area is finite and
+   is EXACTLY (the doubled area of the exact model) / 2.  (The hypothesis
+   [compute_area ... = Some z2] also says that every read is inside the buffer.) *)
+Theorem f_area_exact_int : forall fv zs B offs z2,
+  Forall2 frep fv zs -> Forall (fun z => (Z.abs z <= B)%Z) zs ->
+  (Z.of_nat (area_nterms offs) * (2 * B * B) <= 2 ^ 53)%Z ->
+  compute_area (map Some zs) offs = Some z2 ->
+  ffinite (f_compute_area fv offs) = true /\
+  fvalue (f_compute_area fv offs) = (IZR z2 / 2)%R.
+Proof. exact FloatMeasuresProofs.f_area_exact_int. Qed.
+Print Assumptions f_area_exact_int.
+
+(* the same with the bound stated on the number of vertices m of the element's rings
+   (offsets count values, two per vertex):  m * 2 * B * B <= 2^53 *)
+Theorem f_area_exact_int_vertices : forall fv zs B offs z2 m,
+  Forall2 frep fv zs -> Forall (fun z => (Z.abs z <= B)%Z) zs ->
+  mono offs = true -> last offs 0 <= 2 * m ->
+  (Z.of_nat m * 2 * B * B <= 2 ^ 53)%Z ->
+  compute_area (map Some zs) offs = Some z2 ->
+  ffinite (f_compute_area fv offs) = true /\
+  fvalue (f_compute_area fv offs) = (IZR z2 / 2)%R.
+Proof. exact FloatMeasuresProofs.f_area_exact_int_vertices. Qed.
+Print Assumptions f_area_exact_int_vertices.
+
+(* a single ring of m vertices *)
+Theorem f_area_exact_ring : forall fv zs B m z2,
+  Forall2 frep fv zs -> Forall (fun z => (Z.abs z <= B)%Z) zs ->
+  (Z.of_nat m * 2 * B * B <= 2 ^ 53)%Z ->
+  compute_area (map Some zs) [0; 2 * m] = Some z2 ->
+  ffinite (f_compute_area fv [0; 2 * m]) = true /\
+  fvalue (f_compute_area fv [0; 2 * m]) = (IZR z2 / 2)%R.
+Proof. exact FloatMeasuresProofs.f_area_exact_ring. Qed.
+Print Assumptions f_area_exact_ring.
+
+(* with C14_polygon_area: for closed rings the float area is exactly half the sum of the
+   shoelace values of the element's rings *)
+Theorem f_area_is_shoelace : forall fv zs B offs pss m,
+  Forall2 frep fv zs -> Forall (fun z => (Z.abs z <= B)%Z) zs ->
+  mono offs = true -> all_even offs = true -> last offs 0 <= length zs ->
+  last offs 0 <= 2 * m -> (Z.of_nat m * 2 * B * B <= 2 ^ 53)%Z ->
+  segs (map Some zs) offs = map flatz pss -> Forall closed pss ->
+  ffinite (f_compute_area fv offs) = true /\
+  fvalue (f_compute_area fv offs) = (IZR (zsum (map shoelace2 pss)) / 2)%R.
+Proof. exact FloatMeasuresProofs.f_area_is_shoelace. Qed.
+Print Assumptions f_area_is_shoelace.
+
+(* [frep] is inhabited by an explicit injection of the integers up to 2^53
+   ([Z2F]: of_uint63 of the magnitude, negated for negative numbers) ... *)
+Theorem frep_Z2F : forall z, (Z.abs z <= 2 ^ 53)%Z -> frep (Z2F z) z.
+Proof. exact FloatMeasuresProofs.frep_Z2F. Qed.
+Print Assumptions frep_Z2F.
+
+(* ... so that (i) reads: on the image of an integer buffer *)
+Theorem f_area_exact_Z2F : forall zs B offs z2 m,
+  Forall (fun z => (Z.abs z <= B)%Z) zs -> (B <= 2 ^ 53)%Z ->
+  mono offs = true -> last offs 0 <= 2 * m ->
+  (Z.of_nat m * 2 * B * B <= 2 ^ 53)%Z ->
+  compute_area (map Some zs) offs = Some z2 ->
+  ffinite (f_compute_area (map Z2F zs) offs) = true /\
+  fvalue (f_compute_area (map Z2F zs) offs) = (IZR z2 / 2)%R.
+Proof. exact FloatMeasuresProofs.f_area_exact_Z2F. Qed.
+Print Assumptions f_area_exact_Z2F.
+
+(* non-vacuity, by kernel evaluation of both models: the 3-4-5 triangle *)
+Example ex_f_area_triangle :
+  f_compute_area (map Z2F [0; 0; 4; 0; 4; 3; 0; 0]%Z) [0; 8] = Z2F 6 /\
+  compute_area (map Some [0; 0; 4; 0; 4; 3; 0; 0]%Z) [0; 8] = Some 12%Z.
+Proof. split; vm_compute; reflexivity. Qed.
+
+(* ---- float length on integer coordinates with perfect-square segments is exact ----
+   When every sqrt summed by the exact model has a perfect-square argument
+   ([exact_sum] = Some s: what the correspondence check of the exact model compares
+   exactly), the float length is finite and is exactly the integer s: no subtraction,
+   square, sum, sqrt or accumulation rounds (|coordinate| <= B with 8*B^2 <= 2^53; each
+   root is at most 3B and T roots are accumulated with T*3B <= 2^53). *)
+Theorem f_length_exact_squares : forall fv zs B offs s,
+  Forall2 frep fv zs -> Forall (fun z => (Z.abs z <= B)%Z) zs -> (8 * B * B <= 2 ^ 53)%Z ->
+  (Z.of_nat (length (fst (compute_line_length (map Some zs) offs))) * (3 * B) <= 2 ^ 53)%Z ->
+  snd (compute_line_length (map Some zs) offs) = Some s ->
+  ffinite (f_compute_line_length fv offs) = true /\
+  fvalue (f_compute_line_length fv offs) = IZR s.
+Proof. exact FloatMeasuresProofs.f_length_exact_squares. Qed.
+Print Assumptions f_length_exact_squares.
+
+Example ex_f_length_345 :
+  f_compute_line_length (map Z2F [0; 0; 3; 4; 3; 0; 0; 0]%Z) [0; 8] = Z2F 12 /\
+  compute_line_length (map Some [0; 0; 3; 4; 3; 0; 0; 0]%Z) [0; 8] = ([25; 16; 9]%Z, Some 12%Z).
+Proof. split; vm_compute; reflexivity. Qed.
